@@ -66,11 +66,13 @@ package dnsserver
 // ---- assumed contracts of miekg/dns, coredns, golang-lru used by the query handler ---------------------
 //@ extern github.com/miekg/dns Msg.SetReply
 //@ modifies dns
+//@ ensures len(request.Question) >= 1 ==> len(dns.Question) == 1 && dns.Question[0] == request.Question[0]
 //@ ensures dns.Id == request.Id && dns.Response && dns.Rcode == 0 && dns.Opcode == request.Opcode && !dns.Authoritative == !old(dns.Authoritative) && len(dns.Answer) == old(len(dns.Answer)) && dns.Answer == old(dns.Answer) && dns.Ns == old(dns.Ns) && dns.Extra == old(dns.Extra)
 //@ ensures result == dns
 
 //@ extern github.com/miekg/dns Msg.SetRcode
 //@ modifies dns
+//@ ensures len(request.Question) >= 1 ==> len(dns.Question) == 1 && dns.Question[0] == request.Question[0]
 //@ ensures dns.Id == request.Id && dns.Response && dns.Rcode == rcode && len(dns.Answer) == old(len(dns.Answer)) && dns.Answer == old(dns.Answer) && dns.Ns == old(dns.Ns) && dns.Extra == old(dns.Extra) && dns.Authoritative == old(dns.Authoritative)
 //@ ensures result == dns
 
@@ -153,6 +155,9 @@ package dnsserver
 //@ ensures[queries] cnt["DNS_queries"] == old(cnt)["DNS_queries"] + 1
 //@ before FBDNSDB.writeAndLog#0 assert[badvers] a != nil && a.Rcode == dns.RcodeBadVers && a.Id == r.Id && a.Response
 //@ before FBDNSDB.writeAndLog#1 assert[hit-shape] resp != nil && resp.Id == r.Id && resp.Response
+//@ before FBDNSDB.writeAndLog#1 assert[hit-question] len(r.Question) >= 1 ==> len(resp.Question) == 1 && resp.Question[0] == r.Question[0] && resp.Opcode == r.Opcode
+//@ before FBDNSDB.writeAndLog#3 assert[question] len(r.Question) >= 1 ==> len(a.Question) == 1 && a.Question[0] == r.Question[0] && a.Opcode == r.Opcode
+//@ before FBDNSDB.writeAndLog#2 assert[refused-question] len(r.Question) >= 1 ==> len(m.Question) == 1 && m.Question[0] == r.Question[0]
 //@ before FBDNSDB.writeAndLog#1 assert[hit-opt] (uf.edns0of(r) != nil) == (o != nil)
 //@ before FBDNSDB.writeAndLog#1 assert[hit-ecs] o != nil ==> len(o.Option) == ite(ecs != nil, 1, 0)
 //@ before FBDNSDB.writeAndLog#2 assert[refused] m != nil && m.Rcode == dns.RcodeRefused && m.Id == r.Id && m.Response && !ns && !auth && len(m.Answer) == 0
